@@ -158,7 +158,9 @@ func (e *Ev) evRegexMethod(x *ast.CallExpr, rv VRegex, name string) Val {
 			e.unsupp(x, "MatchString of non-string")
 		}
 		ln := "re_" + rv.Var
-		fx.prog.registerCodeRegex(ln, rv.Pattern)
+		if !rv.Param {
+			fx.prog.registerCodeRegex(ln, rv.Pattern)
+		}
 		fx.langsUsed[ln] = true
 		fx.trusted["regexp.MatchString(s) <=> dec(s) in L(pattern) (assumed; L computed from regexp/syntax of the real pattern, DESIGN 2.5)"] = true
 		return VBool{"(inlang_" + ln + " " + fx.seqOf(s) + ")"}
